@@ -21,6 +21,7 @@
 From Coq Require Import NArith ZArith List Bool.
 From LLRP Require Import Client.Stream Client.StreamProofs Client.Hostile Client.HostileProofs.
 From LLRP Require Import Client.DeviceHostile Client.DeviceHostileProofs.
+From LLRP Require Import Client.StatusText Client.StatusTextProofs.
 Import ListNotations.
 Open Scope N_scope.
 
@@ -216,6 +217,31 @@ Theorem C10_probe_never_panics_refuted :
   probe_after fl se config caps = PoPanic /\ probe_after pflags_as_found se config caps = PoErr.
 Proof. exists (mkPFlags true false true), SeClosedByUs, None, None. exact wit_probe_panics. Qed.
 Print Assumptions C10_probe_never_panics_refuted.
+
+(* ------------------------------------------------------------------ rendering peer-chosen status codes *)
+(* An LLRPStatus carries peer-chosen 16-bit codes (its own, its FieldError's, its ParameterError's,
+   nested to any depth); the errors Connect / SendFor / Shutdown return render them with Error()
+   methods the device service calls directly on goroutines that do not recover.  Model:
+   Client/StatusText.v ([default_text]: class predicates + table lookup, [status_error_panics]).
+   With the class predicates deciding by the RANGE of codes each table covers (the tree as found):
+   for EVERY code — any natural number, so in particular all 65536 — the lookup stays inside its
+   table, and no LLRPStatus whatsoever makes Error() panic. *)
+Theorem C10_status_text_never_panics :
+  (forall sc : N, default_text ByRange sc <> TPanic) /\
+  (forall s : status, status_error_panics ByRange s = false).
+Proof. split; [exact default_text_by_range_total|exact status_error_by_range_total]. Qed.
+Print Assumptions C10_status_text_never_panics.
+
+(* FALSE when the predicates classify by the block of one hundred: for the 16-bit codes the
+   text lookup panics exactly on 113-199, 210-299, 302-400 and 402-499 (in-block codes the
+   tables do not list); e.g. code 113, or an LLRPStatus whose ParameterError carries a FieldError
+   with code 350. *)
+Theorem C10_status_text_never_panics_refuted :
+  (forall sc : N, sc < 65536 -> is_panic (default_text ByBlock sc) = block_gap sc) /\
+  default_text ByBlock 113 = TPanic /\ default_text ByRange 113 = TUnknown /\
+  status_error_panics ByBlock (mkStatus 101 None (Some (PErr 200 (Some 350) None))) = true.
+Proof. split; [exact default_text_by_block_panics_iff|exact wit_block_panics]. Qed.
+Print Assumptions C10_status_text_never_panics_refuted.
 
 (* non-vacuity: a complete well-behaved session (first message, GetSupportedVersion and
    SetProtocolVersion replies, one SendMessage with its reply) ends with the EOF error and
